@@ -90,6 +90,11 @@ func (x *exec) Main() {
 		t, seq := t, seq
 		vsched.GoNamed(fmt.Sprintf("updater%d", t), true, func() {
 			for _, v := range seq {
+				if v < 0 {
+					// a pause longer than the quick timer: lets the pending value be published (or fail) first
+					vsched.Sleep(2 * time.Second)
+					continue
+				}
 				x.rec("upd-start", v, t, nil)
 				rp.Update(vals[v])
 				x.rec("upd-ret", v, t, nil)
@@ -309,6 +314,10 @@ func scenarios(r *eng.Run) []*vexp.Scenario {
 		{name: "two-updaters", updaters: [][]int{{1, 3}, {2}}, last: -1, tshort: time.Second, tlong: 3 * time.Second},
 		{name: "two-waiters", updaters: [][]int{{1}}, waiters: 2, last: -1, tshort: time.Second, tlong: 3 * time.Second},
 		{name: "wait-close", updaters: [][]int{{1}}, waiters: 1, closer: true, last: -1, tshort: time.Second, tlong: 3 * time.Second},
+		// a failed publish (retry mode) superseded by a value that is already published, then WaitPub
+		{name: "retry-then-dup-wait", updaters: [][]int{{1, -1, 0}}, waiters: 1, waitAfter: true, last: 0, tshort: time.Second, tlong: 3 * time.Second},
+		{name: "retry-dup-wait-race", updaters: [][]int{{1, -1, 0}}, waiters: 1, last: 0, tshort: time.Second, tlong: 3 * time.Second},
+		{name: "retry-then-dup-close", updaters: [][]int{{1, -1, 0}}, closer: true, waitAfter: true, last: 0, tshort: time.Second, tlong: 3 * time.Second},
 		{name: "slow-retry-close", updaters: [][]int{{1}}, closer: true, waitAfter: true, last: -1, tshort: time.Second, tlong: 10 * time.Second},
 	}
 	var out []*vexp.Scenario
